@@ -231,6 +231,56 @@ def gen_grid(rng, index):
             "start_us": (946684800 + index * 86400) * 10 ** 6, "steps": steps}
 
 
+EDGE_YEARS = [1968, 1969, 1970, 1971, 1972, 1900, 1899, 1901, 2000, 1999,
+              2001, 2100, 2024, 2023, 2038, 1600, 400, 4, 1, 0, -1, -4, 9999,
+              10000]
+EDGE_OFFSETS = [0, 1, -1, 330, -210, 720, -720, 1439, -1439, 1440, -1500,
+                5999]
+
+
+def gen_edges(rng, index):
+    """Directed family: civil boundaries (year ends, the days around a leap
+    day) x representations x TimePoint offsets, each as seconds_since_unix_
+    epoch, strftime %s and to_local_time_zone -- the places where tick-over
+    code runs -- in every check, not only when random instants land there."""
+    year = EDGE_YEARS[index % len(EDGE_YEARS)]
+    variant = index // len(EDGE_YEARS)
+    mode = ["gregorian", "gregorian", "360day", "365_day", "366day"][
+        variant % 5]
+    zones = [(0, 0, 0), (-19800, -23400, 1), (12600, 9000, 1)]
+    steps = [{"k": "pert", "act": ["tzset", variant % 3]},
+             {"k": "pert", "act": ["dst", variant % 2]}]
+    days = [(1, 1), (2, 28), (3, 1), (12, 30)]
+    if model.days_in_month(mode, 2, year) >= 29:
+        days.append((2, 29))
+    if model.days_in_month(mode, 12, year) >= 31:
+        days.append((12, 31))
+    for (m, d) in days:
+        for H, M, S in ((0, 0, 0), (0, 30, 0), (23, 59, 59)):
+            for off in EDGE_OFFSETS:
+                t = model.unix_from_civil(mode, year, m, d, H, M, S, off)
+                if abs(t) > 2 * 10 ** 11:
+                    wide = True
+                else:
+                    wide = False
+                for rep in ("cal", "ord", "week"):
+                    spec = {"t": t, "off": off, "rep": rep, "form": "hms",
+                            "frac": 0, "via": "ctor"}
+                    steps.append({"k": "op", "op": ["epoch_of", spec],
+                                  "mode": mode})
+                    if not wide:
+                        steps.append({"k": "op", "op": ["to_local", spec],
+                                      "mode": mode})
+                if H == 0 and M == 0:
+                    spec24 = {"t": t, "off": off, "rep": "cal", "form": "24",
+                              "frac": 0, "via": "ctor"}
+                    steps.append({"k": "op", "op": ["epoch_of", spec24],
+                                  "mode": mode})
+    return {"property": PROP, "kind": "edges", "index": index, "mode": mode,
+            "zones": zones, "cur": 0, "isdst": 0,
+            "start_us": 946684800 * 10 ** 6, "steps": steps}
+
+
 # --------------------------------------------------------------------------
 # execution
 
@@ -761,6 +811,8 @@ def make_trace(job):
     rng = kernel.run_rng(PROP, seed, index, kind)
     if kind == "grid":
         return gen_grid(rng, index)
+    if kind == "edges":
+        return gen_edges(rng, index)
     return gen_random(rng, index)
 
 
@@ -815,7 +867,9 @@ def jobs_for(tier, seed):
         n_grid, n_rand = 2881, 2500
     else:
         n_grid, n_rand = 2881 * 6, 100000
-    jobs = [("grid", seed, i) for i in range(n_grid)]
+    n_edges = len(EDGE_YEARS) * (2 if tier == "quick" else 10)
+    jobs = [("edges", seed, i) for i in range(n_edges)]
+    jobs += [("grid", seed, i) for i in range(n_grid)]
     jobs += [("random", seed, i) for i in range(n_rand)]
     return jobs
 
